@@ -58,7 +58,7 @@ Qed.
 Lemma run_plan_inv fuel : forall s p, coherent s -> timed s ->
   coherent (fst (run_plan fuel s p)) /\ files _ _ (fst (run_plan fuel s p)) = files _ _ s.
 Proof.
-  induction fuel as [|fu IH]; intros s p Hc Ht; [cbn; auto|]. destruct p as [|f [|] k]; cbn; [auto| |].
+  induction fuel as [|fu IH]; intros s p Hc Ht; [cbn; auto|]. destruct p as [|f [|] k|f k]; cbn; [auto| | |apply IH; assumption].
   - destruct (load_cached s f) as [[s1 o] h] eqn:El.
     assert (Hc1 : coherent s1) by (pose proof (load_cached_coherent s f Hc) as H; now rewrite El in H).
     assert (Hf1 : files _ _ s1 = files _ _ s) by (pose proof (load_cached_files s f) as H; now rewrite El in H).
@@ -72,7 +72,8 @@ Proof. intros f p tc c t H. discriminate. Qed.
 Lemma run_plan_agrees fuel : forall s s' p, coherent s -> timed s -> coherent s' -> files _ _ s' = files _ _ s ->
   snd (run_plan fuel s p) = snd (run_plan fuel s' p).
 Proof.
-  induction fuel as [|fu IH]; intros s s' p Hc Ht Hc' Hf; [reflexivity|]. destruct p as [|f [|] k]; cbn; [reflexivity| |].
+  induction fuel as [|fu IH]; intros s s' p Hc Ht Hc' Hf; [reflexivity|].
+  destruct p as [|f [|] k|f k]; cbn; [reflexivity| | |unfold Cache.exists_file; rewrite Hf; apply IH; assumption].
   - assert (Ht' : timed s') by (unfold Cache.timed; rewrite Hf; exact Ht).
     pose proof (load_cached_agrees s f Hc Ht) as A. pose proof (load_cached_agrees s' f Hc' Ht') as A'.
     pose proof (load_cached_coherent s f Hc) as C. pose proof (load_cached_coherent s' f Hc') as C'.
@@ -91,7 +92,7 @@ Lemma run_plan_h_erase fuel : forall s p,
   fst (Cache.run_plan_h content parsed parse fuel s p) = fst (run_plan fuel s p) /\
   map fst (snd (Cache.run_plan_h content parsed parse fuel s p)) = snd (run_plan fuel s p).
 Proof.
-  induction fuel as [|fu IH]; intros s p; [cbn; auto|]. destruct p as [|f [|] k]; cbn; [auto| |].
+  induction fuel as [|fu IH]; intros s p; [cbn; auto|]. destruct p as [|f [|] k|f k]; cbn; [auto| | |apply IH].
   - destruct (load_cached s f) as [[s1 o] h]. destruct (IH s1 (k o)) as [H1 H2].
     destruct (Cache.run_plan_h content parsed parse fu s1 (k o)) as [s2 tr]. destruct (run_plan fu s1 (k o)) as [s2' tr'].
     cbn in *. split; congruence.
